@@ -50,24 +50,30 @@ def holderStable (prev cur : Dump) (ph ch : HObs) : Bool :=
       !pa.pols.contains n || (Spec.lookupPol prev n == Spec.lookupPol cur n && (Spec.lookupPol cur n).isSome)
   | _, _ => true
 
-/-- one holder against what its names resolve to -/
-def checkHolder (env : RegexEnv) (d : Dir) (dump : Dump) (rs : List Route) : HObs → Option (Nat × String)
-  | none => none
+/-- one holder against what its names resolve to: every probe is judged -/
+def holderFails (env : RegexEnv) (d : Dir) (dump : Dump) (rs : List Route) : HObs → List (Nat × String)
+  | none => []
   | some (a, ps) =>
-      if ps.length ≠ rs.length then some (0, "assignment-listing")
+      if ps.length ≠ rs.length then [(0, "assignment-listing")]
       else
         match Spec.resolveAsg dump a with
-        | none => some (0, "dangling-reference")
-        | some stmts => Spec.firstSome (fun _ rp => Spec.checkProbe env d a.dflt stmts rp.1 rp.2) 0 (rs.zip ps)
+        | none => [(0, "dangling-reference")]
+        | some stmts =>
+            (if a.rpki != stmts.any (fun s => s.conds.any Spec.isRpkiCond) then [(0, "needs-rpki-flag")] else []) ++
+            Spec.allFails (fun rp => Spec.checkProbe env d a.dflt stmts rp.1 rp.2) 0 (rs.zip ps)
 
 def lookupPeer (a : Addr) (l : List (Addr × HObs)) : Option HObs := (l.find? (fun p => p.1 = a)).map (·.2)
 
-def checkPeers (env : RegexEnv) (dump : Dump) (rs : List Route) : List (Addr × HObs) → Option (Nat × String)
-  | [] => none
-  | p :: r =>
-      match checkHolder env .exp dump rs p.2 with
-      | some e => some e
-      | none => checkPeers env dump rs r
+def peersFails (env : RegexEnv) (dump : Dump) (rs : List Route) : List (Addr × HObs) → List (Nat × String)
+  | [] => []
+  | p :: r => holderFails env .exp dump rs p.2 ++ peersFails env dump rs r
+
+/-- the table-level call a daemon call makes with the arguments it was given, if any: what was
+    asked must then be listed -/
+def requestOf : DOp → Option Op
+  | .tbl op => some op
+  | .polAdd n ss => some (.polAdd n ss)
+  | _ => none
 
 def listingOf : HObs → Option DAsg
   | none => none
@@ -76,8 +82,10 @@ def listingOf : HObs → Option DAsg
 def checkDSteps (env : RegexEnv) (rs : List Route) :
     Nat → Dump → HObs → HObs → List (Addr × HObs) → List DOp → DObs → Spec.Verdict
   | _, _, _, _, _, [], [] => .ok
-  | i, prev, pi, pe, pp, op :: ops, .step _ dump hi he hp :: obs =>
+  | i, prev, pi, pe, pp, op :: ops, .step res dump hi he hp :: obs =>
       if !isReload op && !Spec.refsStable prev dump then .fail i 0 "referenced-object-changed"
+      else if !Spec.heldCurrent dump then .fail i 0 "held-object-stale"
+      else if !((requestOf op).elim true (fun o => Spec.requestStored o res dump)) then .fail i 0 "stored-differs-from-request"
       else if !isReload op && !(holderStable prev dump pi hi && holderStable prev dump pe he &&
           hp.all (fun p => holderStable prev dump ((lookupPeer p.1 pp).getD none) p.2)) then
         .fail i 0 "holder-policy-changed"
@@ -88,15 +96,9 @@ def checkDSteps (env : RegexEnv) (rs : List Route) :
         .fail i 0 "holder-changed"
       else if listingOf hi ≠ dump.imp || listingOf he ≠ dump.exp then .fail i 0 "published-assignment-differs"
       else
-        match checkHolder env .imp dump rs hi with
+        match Spec.pickFail (holderFails env .imp dump rs hi ++ holderFails env .exp dump rs he ++ peersFails env dump rs hp) with
         | some (j, c) => .fail i j c
-        | none =>
-            match checkHolder env .exp dump rs he with
-            | some (j, c) => .fail i j c
-            | none =>
-                match checkPeers env dump rs hp with
-                | some (j, c) => .fail i j c
-                | none => checkDSteps env rs (i + 1) dump hi he hp ops obs
+        | none => checkDSteps env rs (i + 1) dump hi he hp ops obs
   | i, _, _, _, _, _, _ => .fail i 0 "observation-shape"
 
 /-- the C14 reference checker for daemon-level cases -/
